@@ -118,7 +118,7 @@ PROPS = {
             "vstd specifications of Vec::push / remove / len / index, slice iteration, Option, str::is_ascii, str::to_string",
         ],
         "not_covered": [
-            "TryFrom<&mut str> and TryFrom<Cow<str>> for AsciiString; From<i8..usize> (to_string of integers)",
+            "TryFrom<Cow<str>> for AsciiString; From<i8..usize> (to_string of integers)",
             "that read_http_request removes exactly content-type / expect / transfer-encoding (split/map/filter chains are outside Verus)",
             "Deref/DerefMut/IntoIterator pass-throughs of HeaderList (callers can mutate the Vec directly)",
         ],
@@ -287,7 +287,7 @@ PROPS = {
                       "parse_header_line is under contract in unit `parse` (total, every unwrap unreachable, given the assumed meaning of its "
                       "regex matcher). Not covered: panic-freedom of parse_request_line (Url crate), the line splitting in try_read, panic "
                       "hooks. FixedBuf and the reader are assumed contracts.",
-        "verus": ["head", "parse", "tryread"],
+        "verus": ["head", "parse", "tryread", "request"],
         "verus_thorough": [],
         "kani": [],
         "witness": "c01",
@@ -611,11 +611,14 @@ UNIT_OWNER = {
 SCOPE = {
     # total request reading also needs the parsers to be panic-free
     "C01": {"parse": [r"\| (precondition not satisfied|possible arithmetic|possible division|index out of bounds|unreachable)"]},
-    "C02": {"head": [r"^fn trim_whitespace \|"]},
+    # ... and the fields reach the handler in the order sent: the removal operations read_http_request applies must keep it
+    "C02": {"head": [r"^fn trim_whitespace \|"], "headers": [r"^impl HeaderList / fn remove_(all|only) \|"]},
     # a request body is exactly the next N bytes; coded bodies are refused when read
     "C03": {"conn": [r"^impl HttpConn / fn read_request \|"],
             "body": [r"^fn read_http_body_to_(vec|file) \|"]},
     "C06": {"copy": [r"^fn copy_async \|"], "chunked": [r"^fn copy_chunked_async \|"]},
+    # one response per request on the wire, and the connection closed after a failed one: that is write_response's contract
+    "C04": {"conn": [r"^impl HttpConn / fn write_response \|"]},
     "C09": {"conn": [r"^fn (read_http_|copy_async)"], "copy": [r"."]},
 }
 
